@@ -168,8 +168,44 @@ func c07Envelope(o *Out, root *ggql.Root, doc, op string, vars map[string]interf
 	})
 }
 
+// c07StrRoot answers every field with one string: the response strings of the string table below.
+type c07StrRoot struct{ s string }
+
+func (r *c07StrRoot) Resolve(f *ggql.Field, args map[string]interface{}) (interface{}, error) {
+	switch f.Name {
+	case "query":
+		return r, nil
+	case "fail":
+		return nil, fmt.Errorf("bad %s", r.s)
+	case "l":
+		return []interface{}{r.s, r.s}, nil
+	}
+	return r.s, nil
+}
+
+// every byte 0x00-0x7f alone, embedded, doubled and trailing; the JSON-significant ones; multi-byte and invalid UTF-8
+func c07Strings() []string {
+	var out []string
+	for b := 0; b < 0x80; b++ {
+		c := string([]byte{byte(b)})
+		out = append(out, c, "a"+c+"b", c+c, "us only"+c)
+	}
+	out = append(out, "é", "日本", "😀", "\xff", "a\xc3", "\xed\xa0\x80", "\u2028\u2029", "\\u0041", "\"\\\"", "</script>")
+	return out
+}
+
 func init() {
 	props["C07"] = func(o *Out, rng *Rng, tier string) {
+		// string table: data values, echoed error messages and list members, every indent mode (in c07Envelope)
+		sr := &c07StrRoot{}
+		sroot := ggql.NewRoot(sr)
+		if err := sroot.ParseString("type Query { s: String  l: [String]  fail: String }"); err != nil {
+			panic(err)
+		}
+		for _, str := range c07Strings() {
+			sr.s = str
+			c07Envelope(o, sroot, "{ s l fail }", "", nil, "string-table")
+		}
 		n := 300
 		if tier == "thorough" {
 			n = 12000
